@@ -17,7 +17,10 @@ Pool(n) == {PoolSeq(n)[i] : i \in 1..Len(PoolSeq(n))}
 \* address keys (kind "a": workchain:int32 address:bits256) whose workchain fits the library's int8 field:
 \* the top 25 bits are copies of the sign bit
 FixAddr(k) == [i \in 1..Len(k) |-> IF i <= 24 THEN k[25] ELSE k[i]]
-PoolOf(ty) == IF ty[1] = "a" THEN {FixAddr(k) : k \in Pool(ty[2])} ELSE Pool(ty[2])
+\* address keys also take the extreme workchains -128 (1 x 25, 0 x 7) and 127 (0 x 25, 1 x 7)
+MinWc(n) == [i \in 1..n |-> IF i <= 25 THEN 1 ELSE 0]
+MaxWc(n) == [i \in 1..n |-> IF i <= 25 THEN 0 ELSE IF i <= 32 THEN 1 ELSE 0]
+PoolOf(ty) == IF ty[1] = "a" THEN {FixAddr(k) : k \in Pool(ty[2])} \cup {MinWc(ty[2]), MaxWc(ty[2])} ELSE Pool(ty[2])
 Val(k) == LET src == k \o Alt(32, Len(k)) IN [i \in 1..32 |-> (src[i] + (IF i % 3 = 0 THEN 1 ELSE 0)) % 2]
 Val2(k) == [i \in 1..32 |-> 1 - Val(k)[i]]
 
